@@ -6,7 +6,7 @@ import numpy as np
 from numpy.typing import NDArray
 
 from ropt.config.enopt import EnOptConfig
-from ropt.evaluator import Evaluator, EvaluatorContext
+from ropt.evaluator import Evaluator, EvaluatorContext, EvaluatorResult
 from ropt.transforms import OptModelTransforms
 
 
@@ -76,9 +76,24 @@ def _propagate_nan_values(
         objective_results = objective_results.copy()
         objective_results[failures, :] = np.nan
     if constraint_results is not None:
-        constraint_failures = constraint_failures.copy()
+        constraint_results = constraint_results.copy()
         constraint_results[failures, :] = np.nan
     return objective_results, constraint_results
+
+
+def _transform_evaluator_result(
+    evaluator_result: EvaluatorResult, transforms: OptModelTransforms | None
+) -> tuple[NDArray[np.float64], NDArray[np.float64] | None]:
+    # The result object and its arrays belong to the evaluator, which may
+    # store and re-use them. Transformed values must not be written back:
+    objectives = evaluator_result.objectives
+    constraints = evaluator_result.constraints
+    if transforms is not None:
+        if transforms.objectives is not None:
+            objectives = transforms.objectives.to_optimizer(objectives)
+        if constraints is not None and transforms.nonlinear_constraints is not None:
+            constraints = transforms.nonlinear_constraints.to_optimizer(constraints)
+    return objectives, constraints
 
 
 def _uses_realization_filters(config: EnOptConfig) -> bool:
@@ -145,39 +160,26 @@ def _get_function_results(  # noqa: PLR0913
     if transforms is not None and transforms.variables:
         variables = transforms.variables.from_optimizer(variables)
     evaluator_result = evaluator(np.repeat(variables, realization_num, axis=0), context)
-    if transforms is not None:
-        if transforms.objectives is not None:
-            evaluator_result.objectives = transforms.objectives.to_optimizer(
-                evaluator_result.objectives
-            )
-        if (
-            evaluator_result.constraints is not None
-            and transforms.nonlinear_constraints is not None
-        ):
-            evaluator_result.constraints = (
-                transforms.nonlinear_constraints.to_optimizer(
-                    evaluator_result.constraints
-                )
-            )
-    split_objectives = np.vsplit(evaluator_result.objectives, variables.shape[0])
+    objectives, constraints = _transform_evaluator_result(evaluator_result, transforms)
+    split_objectives = np.vsplit(objectives, variables.shape[0])
     split_constraints = (
         []
-        if evaluator_result.constraints is None
-        else np.vsplit(evaluator_result.constraints, variables.shape[0])
+        if constraints is None
+        else np.vsplit(constraints, variables.shape[0])
     )
     split_infos = {
         key: np.split(value, variables.shape[0])
         for key, value in evaluator_result.evaluation_info.items()
     }
-    for idx, (objectives, constraints) in enumerate(
+    for idx, (split_objective, split_constraint) in enumerate(
         zip_longest(split_objectives, split_constraints)
     ):
         yield (
             idx,
             _FunctionEvaluatorResults(
                 batch_id=evaluator_result.batch_id,
-                objectives=objectives,
-                constraints=constraints,
+                objectives=split_objective,
+                constraints=split_constraint,
                 evaluation_info={key: value[idx] for key, value in split_infos.items()},
             ),
         )
@@ -204,24 +206,11 @@ def _get_gradient_results(  # noqa: PLR0913
     if transforms is not None and transforms.variables:
         variables = transforms.variables.from_optimizer(variables)
     evaluator_result = evaluator(variables, context)
-    if transforms is not None:
-        if transforms.objectives is not None:
-            evaluator_result.objectives = transforms.objectives.to_optimizer(
-                evaluator_result.objectives
-            )
-        if (
-            evaluator_result.constraints is not None
-            and transforms.nonlinear_constraints is not None
-        ):
-            evaluator_result.constraints = (
-                transforms.nonlinear_constraints.to_optimizer(
-                    evaluator_result.constraints
-                )
-            )
+    objectives, constraints = _transform_evaluator_result(evaluator_result, transforms)
     return _GradientEvaluatorResults(
         batch_id=evaluator_result.batch_id,
-        perturbed_objectives=evaluator_result.objectives,
-        perturbed_constraints=evaluator_result.constraints,
+        perturbed_objectives=objectives,
+        perturbed_constraints=constraints,
         evaluation_info=evaluator_result.evaluation_info,
         realization_count=config.realizations.weights.size,
         perturbation_count=config.gradient.number_of_perturbations,
@@ -266,28 +255,15 @@ def _get_function_and_gradient_results(  # noqa: PLR0913
     if transforms is not None and transforms.variables:
         all_variables = transforms.variables.from_optimizer(all_variables)
     evaluator_result = evaluator(all_variables, context)
-    if transforms is not None:
-        if transforms.objectives is not None:
-            evaluator_result.objectives = transforms.objectives.to_optimizer(
-                evaluator_result.objectives
-            )
-        if (
-            evaluator_result.constraints is not None
-            and transforms.nonlinear_constraints is not None
-        ):
-            evaluator_result.constraints = (
-                transforms.nonlinear_constraints.to_optimizer(
-                    evaluator_result.constraints
-                )
-            )
+    objectives, constraints = _transform_evaluator_result(evaluator_result, transforms)
     return (
         _FunctionEvaluatorResults(
             batch_id=evaluator_result.batch_id,
-            objectives=evaluator_result.objectives[:realization_num],
+            objectives=objectives[:realization_num],
             constraints=(
                 None
-                if evaluator_result.constraints is None
-                else evaluator_result.constraints[:realization_num]
+                if constraints is None
+                else constraints[:realization_num]
             ),
             evaluation_info={
                 key: value[:realization_num]
@@ -296,11 +272,11 @@ def _get_function_and_gradient_results(  # noqa: PLR0913
         ),
         _GradientEvaluatorResults(
             batch_id=evaluator_result.batch_id,
-            perturbed_objectives=evaluator_result.objectives[realization_num:, :],
+            perturbed_objectives=objectives[realization_num:, :],
             perturbed_constraints=(
                 None
-                if evaluator_result.constraints is None
-                else evaluator_result.constraints[realization_num:, :]
+                if constraints is None
+                else constraints[realization_num:, :]
             ),
             evaluation_info={
                 key: value[realization_num:]
